@@ -150,7 +150,7 @@ Lemma dapply_all_app : forall a b d d2 r,
   exists d1 r1 r2, dapply_all d a = Some (d1, r1) /\ dapply_all d1 b = Some (d2, r2) /\ r = r1 ++ r2
                    /\ length r1 = length a.
 Proof.
-  induction a as [|[i c] a IH]; intros b d d2 r H; cbn in *.
+  induction a as [|[i c] a IH]; intros b d d2 r H; cbn [dapply_all app] in *.
   - exists d, [], r. auto.
   - destruct (dapply d i c) as [[d' res]|]; [|discriminate].
     destruct (dapply_all d' (a ++ b)) as [[d'' rs]|] eqn:E; [|discriminate]. inv H.
@@ -162,18 +162,27 @@ Lemma dapply_all_app_intro : forall a b d d1 d2 r1 r2,
   dapply_all d a = Some (d1, r1) -> dapply_all d1 b = Some (d2, r2) ->
   dapply_all d (a ++ b) = Some (d2, r1 ++ r2).
 Proof.
-  induction a as [|[i c] a IH]; intros b d d1 d2 r1 r2 H1 H2; cbn in *.
+  induction a as [|[i c] a IH]; intros b d d1 d2 r1 r2 H1 H2; cbn [dapply_all app] in *.
   - inv H1. exact H2.
   - destruct (dapply d i c) as [[d' res]|]; [|discriminate].
     destruct (dapply_all d' a) as [[d'' rs]|] eqn:E; [|discriminate]. inv H1.
-    erewrite IH; eauto.
+    rewrite (IH _ _ _ _ _ _ E H2). reflexivity.
 Qed.
 
 Lemma dapply_all_index_mono : forall cs d d' r, dapply_all d cs = Some (d', r) -> d_index d <= d_index d'.
 Proof.
-  induction cs as [|[i c] cs IH]; intros d d' r H; cbn in H.
+  induction cs as [|[i c] cs IH]; intros d d' r H; cbn [apply_all dapply_all] in H.
   - inv H. lia.
   - destruct (dapply d i c) as [[d1 res]|] eqn:E; [|discriminate].
     destruct (dapply_all d1 cs) as [[d2 rs]|] eqn:E2; [|discriminate]. inv H.
     apply IH in E2. apply dapply_index in E. destruct ((d_index d <? i) && is_write c) eqn:E3; lia.
+Qed.
+
+Lemma apply_all_dapply_all_inv : forall cs d v s' r,
+  apply_all (d, v) cs = Some (s', r) -> dapply_all d cs = Some (fst s', r).
+Proof.
+  induction cs as [|[i c] cs IH]; intros d v s' r H; cbn [apply_all dapply_all] in *; [inv H; reflexivity|].
+  destruct (apply (d, v) i c) as [[[d1 v1] res]|] eqn:E; [|discriminate].
+  destruct (apply_all (d1, v1) cs) as [[s2 rs]|] eqn:E2; [|discriminate]. inv H.
+  apply apply_dapply in E. cbn in E. rewrite E. erewrite IH; eauto.
 Qed.
